@@ -234,6 +234,17 @@ def source_for(sc, k):
     sig = ", ".join(parts)
     pad = "".join("# pad %d\n" % j for j in range(ver.get("pad", 0)))
     kind = ver.get("kind", "def")
+    if kind == "names":
+        # same-named callables of ONE module: a module-level function, a bound method, staticmethods of several
+        # classes and of a nested class -- distinct qualnames, hence distinct function identifiers
+        def body(label, ind, slf=""):
+            return ("%sdef area(%sx):\n%s    _COUNT[0] += 1\n%s    return (%r, (('x', x),))\n"
+                    % (ind, slf, ind, ind, label))
+        return ("_COUNT = [0]\n\n\n" + body("area", "") + "\n\nclass Square:\n    def __init__(self):\n"
+                "        self.t = 1\n\n" + body("Square.area", "    ", "self, ") +
+                "\n\nclass Disc:\n    @staticmethod\n" + body("Disc.area", "    ") +
+                "\n\nclass Outer:\n    class Inner:\n        @staticmethod\n" + body("Outer.Inner.area", "        ") +
+                "\n    @staticmethod\n" + body("Outer.area", "    "))
     if ver.get("how"):
         # one base text for all callables without __code__: a function, a class with a method and __call__
         tag = ver["tag"]
@@ -404,7 +415,7 @@ def main():
                 defaults_ns = {n: dec(d) for n, _, d in vparams(sc, k) if d is not None and not is_literal(d)}
 
                 def load(name, fname):
-                    if ver.get("kind") == "method" or (sc.get("picklable") and name != "__main__"):
+                    if ver.get("kind") in ("method", "names") or (sc.get("picklable") and name != "__main__"):
                         # the instance is hashed (pickled) as part of the key: its class must be importable
                         mod = types.ModuleType(name)
                         mod.__dict__["_DEFAULTS"] = defaults_ns
@@ -435,6 +446,21 @@ def main():
                         return functools.partial(n_["g"], *fpos, **fkw)
                     objs[k] = build(ns)
                     plains[k] = build(ns2)
+                elif ver.get("kind") == "names":
+                    if path not in bases:
+                        bases[path] = (load(modname, path), load("verifplain", path + ".plain"))
+                    ns, ns2 = bases[path]
+
+                    def member(n_):
+                        m = ver["member"]
+                        if m == "Square().area":
+                            return n_["Square"]().area
+                        o = None
+                        for part in m.split("."):
+                            o = n_[part] if o is None else getattr(o, part)
+                        return o
+                    objs[k] = member(ns)
+                    plains[k] = member(ns2)
                 else:
                     ns = load(modname, path)
                     ns2 = load("verifplain", path if path == "<string>" else path + ".plain")
@@ -443,6 +469,24 @@ def main():
                 counts[k] = ns["_COUNT"]
                 wraps.pop(k, None)
                 res["o"] = "done"
+            elif kind == "pickled":
+                # the live wrapper is pickled / copied / hashed (as a Parallel dispatch does); the copy is DISCARDED
+                # unless how == "roundtrip": being pickled must not change the live wrapper
+                import copy
+                import pickle as _p
+                k, how = ev[1], ev[2]
+                w = wraps[k]
+                if how == "dumps":
+                    _p.dumps(w)
+                elif how == "hash":
+                    joblib.hash(w)
+                elif how == "copy":
+                    copy.copy(w)
+                elif how == "deepcopy":
+                    copy.deepcopy(w)
+                elif how == "roundtrip":
+                    wraps[k] = _p.loads(_p.dumps(w))
+                res["o"] = "skip"
             elif kind == "rewrap":
                 # the wrapper goes through pickle / copy (as when it is sent to a worker): __getstate__ drops the
                 # timestamp and the code id; the copy replaces the original
